@@ -560,12 +560,42 @@ def glatend(run, fx):
         run.broken('VALIDATOR', 'the Glat iterator stops while a whole value is left', 'expected both instantiations of _glat_iterator::operator==, recognised %d' % n)
 
 
+def glocids(run, fx, rule='VALIDATOR'):
+    """the number of glyphs with attributes is derived from the size of Gloc: (size - header - attribute-id array) / entry size - 1.
+    The attribute-id array (present when flag bit 1 is set) is uint16[numAttribs] in BOTH Gloc formats (GTF: `USHORT attribIds[]`); only
+    the location entries are 16 or 32 bits wide.  So the term that is subtracted for it is  2 * numAttribs  -- a constant 2, not the
+    entry size: with 4 in the long format the count is short by numAttribs / 2 glyphs, gr_face_n_glyphs shrinks, and the font's own
+    rules put glyph ids at or above it into slots."""
+    fn = fx.one('graphite2::GlyphCache::Loader::Loader')
+    inst = 'the Gloc attribute-id array is counted in 16-bit units'
+    hits = []
+    for _, e in fn.elements():
+        if e['k'] == 'BinaryOperator' and e.get('op') == '*':
+            sides = [fn.strip_all_casts(fn.N(c_)) for c_ in e['c']]
+            for a, b in ((sides[0], sides[1]), (sides[1], sides[0])):
+                if a['k'] == 'ConditionalOperator' and '_num_attrs' in fn.render(a) and '& 2' in fn.render(a).replace('0x2', '2'):
+                    hits.append((e, b))
+    if len(hits) != 1:
+        run.broken(rule, inst, 'the term `unit * (flags & 2 ? _num_attrs : 0)` of the Gloc size arithmetic was not recognised (%d candidates)' % len(hits), fn.where())
+        return
+    e, unit = hits[0]
+    v = unit.get('v')
+    if v is None and unit['k'] == 'DeclRefExpr' and unit.get('vid') in fn.const_init:
+        v = fn.strip_all_casts(fn.N(fn.const_init[unit['vid']])).get('v')
+    if v == 2:
+        run.held(rule, inst, fn.loc(e), fn.render(e))
+    else:
+        run.violated(rule, inst, fn.loc(e), 'GlyphCache::Loader subtracts `%s` for the attribute-id array of Gloc; that array is uint16[numAttribs] in both formats, so the unit is 2 -- with the '
+                     'entry size of the long format the number of glyphs is under-counted by numAttribs / 2: gr_face_n_glyphs shrinks and the font\'s rules produce glyph ids at or above it' % fn.render(e))
+
+
 def run(run):
     vm = R.get_vm(run)
     fx = vm.fx
     narrowinit(run, fx)
     countarray(run, fx)
     glatend(run, fx)
+    glocids(run, fx)
     attridx(run, fx)
     checkafteruse(run, fx)
     extentfirst(run, fx)
